@@ -212,6 +212,8 @@ class Crate:
         self.modules = {}
         self.types = {}
         self.mac_lines = {}
+        self.expect = {}             # {type key: [trait paths]} compile-time assertions (src/expect.rs)
+        self.expect_lines = {}
         self.codegen_failures = []   # (variant, schema, output)
 
     def generate(self, variant, names):
@@ -246,6 +248,20 @@ class Crate:
                     self.mac_lines[(variant, i + 1)] = n
                 with open(os.path.join(src, variant + ".rs"), "w") as f:
                     f.write(body)
+        # what the generated types must implement (c16gen.Env.expected_impls): one assertion per line,
+        # for every variant the schema's module is compiled in
+        self.expect_lines = {}
+        body = ""
+        for variant, names in sorted(self.modules.items()):
+            for k, traits in sorted(self.expect.items()):
+                if k.split(".", 1)[0] in names:
+                    self.expect_lines[len(self.expect_lines) + 1] = (variant, k.split(".", 1)[0])
+                    body += "const _: fn() = || { fn a<T: %s>() {} a::<%s>(); };\n" % (
+                        " + ".join(traits), c16gen.rust_path(k, "crate::" + variant))
+        if body:
+            with open(os.path.join(src, "expect.rs"), "w") as f:
+                f.write(body)
+            main += "mod expect;\n"
         if with_runner:
             arms = "".join("        \"%s\" => rt::cycle::<%s>(b),\n" % (k, c16gen.rust_path(k, v))
                            for k, v in sorted(self.types.items()))
@@ -266,6 +282,8 @@ class Crate:
             n = self.mac_lines.get((m.group(1), line))
             if n:
                 return m.group(1), n
+        if re.search(r"src/expect\.rs$", file_name):
+            return self.expect_lines.get(line)
         return None
 
     def build(self, timeout=2400):
@@ -291,6 +309,7 @@ class Crate:
             mod = None
             at = None
             text = ""
+            fname = ""
             spans = msg.get("spans", [])
             for sp in sorted(spans, key=lambda s: not s.get("is_primary")):
                 chain = sp
@@ -298,6 +317,7 @@ class Crate:
                     mod = self.module_of(chain.get("file_name", ""), chain.get("line_start", 0))
                     if mod is not None:
                         at = chain.get("line_start")
+                        fname = chain.get("file_name", "")
                         if chain.get("text"):
                             text = chain["text"][0].get("text", "")
                     exp = chain.get("expansion")
@@ -305,7 +325,7 @@ class Crate:
                 if mod is not None:
                     break
             help_msgs = " ".join(c.get("message", "") for c in msg.get("children", []))
-            errors.append({"module": mod, "message": msg.get("message", ""), "line": at, "text": text[:300],
+            errors.append({"module": mod, "message": msg.get("message", ""), "line": at, "text": text[:300], "file": fname,
                            "help": help_msgs[:300], "rendered": (msg.get("rendered") or "")[:1500]})
         ok = rc == 0
         if not ok and not errors:
@@ -326,9 +346,13 @@ final macro override priv typeof unsized virtual yield try gen""".split())
 
 
 def classify(err, rs_line=""):
-    """failure class of one rustc error (classes a-e are the known defects; anything else is `other`)"""
+    """failure class of one rustc error (classes a-f are the known defects; `impl` = a compile-time assertion
+    of src/expect.rs failed: the type compiles but lacks a trait the code generator derives for it; anything
+    else is `other`)"""
     m = err["message"]
     t = err.get("text", "") or rs_line
+    if err.get("file", "").endswith("expect.rs"):
+        return "impl", None
     mm = re.search(r"`(Self|self|crate|super|_)` cannot be a raw identifier", m)
     if mm:
         return "d", mm.group(1)
@@ -341,6 +365,9 @@ def classify(err, rs_line=""):
                                    or "unknown start of token" in m or "prefix" in m or "suffix" in m
                                    or "unescaped" in m or "invalid" in m):
         return "a", None
+    mf = re.search(r"(let bindings|function parameters) cannot shadow (tuple structs|constants)", m)
+    if mf or "is interpreted as a constant, not a new binding" in err.get("rendered", ""):
+        return "f", None
     if "proc-macro derive panicked" in m and "attempt to add with overflow" in (err.get("help", "") + err.get("rendered", "")):
         return "e", None
     return "other", None
